@@ -9,6 +9,7 @@ import (
 	"regexp"
 	"sort"
 	"strconv"
+	"strings"
 	"time"
 
 	"github.com/fxamacker/cbor/v2"
@@ -436,6 +437,61 @@ func structToGo(v *Value, e *Embedding) (any, error) {
 		return p.Interface(), nil
 	}
 	return p.Elem().Interface(), nil
+}
+
+// NilContainerVariant is the second concretisation of a native struct value: the specification identifies
+// the nil and the empty slice / map, so an EMPTY list / map held by a by-value field of slice / map type
+// (catalogue kinds list_*, map_*) also stands for that field left at its zero value - nil, a field that was
+// never assigned.  The variant leaves those fields nil (also in nested struct values); ok=false when the value
+// has no such field.
+func NilContainerVariant(v *Value) (out *Value, ok bool) {
+	if v == nil {
+		return v, false
+	}
+	switch v.K {
+	case "list":
+		cp := *v
+		cp.List = make([]*Value, len(v.List))
+		for i, x := range v.List {
+			y, ch := NilContainerVariant(x)
+			cp.List[i], ok = y, ok || ch
+		}
+		return &cp, ok
+	case "map":
+		cp := *v
+		cp.Pairs = make([][2]*Value, len(v.Pairs))
+		for i, p := range v.Pairs {
+			y, ch := NilContainerVariant(p[1])
+			cp.Pairs[i], ok = [2]*Value{p[0], y}, ok || ch
+		}
+		return &cp, ok
+	case "struct":
+		lay := catalog.ByID(v.T)
+		if lay == nil {
+			return v, false
+		}
+		cp := *v
+		cp.Fields = make([]StructField, len(v.Fields))
+		for i, f := range v.Fields {
+			cp.Fields[i] = f
+			if !f.Val.Some || f.Val.V == nil {
+				continue
+			}
+			fd, found := lay.FieldByProp(f.Name)
+			x := f.Val.V
+			if found && !fd.Ptr && (strings.HasPrefix(fd.FK, "list_") || strings.HasPrefix(fd.FK, "map_")) &&
+				((x.K == "list" && len(x.List) == 0) || (x.K == "map" && len(x.Pairs) == 0)) {
+				cp.Fields[i].Val = OptValue{} // not assigned: the field keeps its zero value, a nil slice / map
+				ok = true
+				continue
+			}
+			y, ch := NilContainerVariant(x)
+			cp.Fields[i].Val = OptValue{Some: true, V: y}
+			ok = ok || ch
+		}
+		return &cp, ok
+	}
+	return v, false
 }
 
 var tAny = reflect.TypeOf((*any)(nil)).Elem()
